@@ -171,10 +171,20 @@ type Uintptr struct{ v uint64 }
 func (u *Uintptr) Load() uintptr   { return uintptr(LoadUint64(&u.v)) }
 func (u *Uintptr) Store(x uintptr) { StoreUint64(&u.v, uint64(x)) }
 
-func SwapUint32(p *uint32, n uint32) uint32 { rmw(unsafe.Pointer(p), "aswap"); o := *p; *p = n; return o }
-func SwapUint64(p *uint64, n uint64) uint64 { rmw(unsafe.Pointer(p), "aswap"); o := *p; *p = n; return o }
-func SwapInt32(p *int32, n int32) int32     { rmw(unsafe.Pointer(p), "aswap"); o := *p; *p = n; return o }
-func SwapInt64(p *int64, n int64) int64     { rmw(unsafe.Pointer(p), "aswap"); o := *p; *p = n; return o }
+func SwapUint32(p *uint32, n uint32) uint32 {
+	rmw(unsafe.Pointer(p), "aswap")
+	o := *p
+	*p = n
+	return o
+}
+func SwapUint64(p *uint64, n uint64) uint64 {
+	rmw(unsafe.Pointer(p), "aswap")
+	o := *p
+	*p = n
+	return o
+}
+func SwapInt32(p *int32, n int32) int32 { rmw(unsafe.Pointer(p), "aswap"); o := *p; *p = n; return o }
+func SwapInt64(p *int64, n int64) int64 { rmw(unsafe.Pointer(p), "aswap"); o := *p; *p = n; return o }
 func CompareAndSwapUint64(p *uint64, o, n uint64) bool {
 	rmw(unsafe.Pointer(p), "acas")
 	if *p == o {
